@@ -368,9 +368,10 @@ var _ = resp.Cmd
 
 func checkC09(r *verdict.Run) {
 	r.Rule = "(1) random transaction programs on one connection (any order of MULTI/EXEC/DISCARD/WATCH/UNWATCH, queued commands of all families incl. run-time failures, queue-time rejections, blocking commands with timeout 0, SELECT) with a second connection interfering, in lock step with the reference model: QUEUED replies, nothing visible before EXEC (state compared after every step through an observer connection), EXEC array per queued command or EXECABORT/null, state machine after EXEC/DISCARD, misuse errors; " +
-		"(2) isolation under concurrency: 4 writers run transactions that keep invariants (x = y, a token in exactly one key, an element in exactly one list) while 4 readers check them with atomic multi-key reads, with yields injected between the commands of EXEC; (3) canary liveness after every program; (4) commands with locks of their own (CLIENT LIST/INFO/KILL/UNBLOCK, INFO, FLUSHALL, SELECT, KEYS, COPY ...) inside transactions on four connections and outside on four others at the same time: every command must be answered; (5) isolation against other databases: transactions in database 0 (five INCRs of one key must answer consecutive numbers, x and y are set together) while connections in other databases run FLUSHALL (plain, queued, ASYNC) and transactions with a queued SELECT 0. " +
+		"(2) isolation under concurrency: 4 writers run transactions that keep invariants (x = y, a token in exactly one key, an element in exactly one list) while 4 readers check them with atomic multi-key reads, with yields injected between the commands of EXEC; (3) canary liveness after every program; (4) commands with locks of their own (CLIENT LIST/INFO/KILL/UNBLOCK, INFO, FLUSHALL, SELECT, KEYS, COPY ...) inside transactions on four connections and outside on four others at the same time: every command must be answered; (6) directed programs in lock step with the model: every blocking command (timeouts 0 and 30, empty and non-empty source) queued after queued SELECTs to a used, a never used and the own database, followed by further queued commands - EXEC must answer everything at once, in order; (5) isolation against other databases: transactions in database 0 (five INCRs of one key must answer consecutive numbers, x and y are set together) while connections in other databases run FLUSHALL (plain, queued, ASYNC) and transactions with a queued SELECT 0. " +
 		"distinct = (command, MULTI state, outcome class) + EXEC element classes + isolation runs"
 	c09Sequential(r, tierPick(r, 400, 8000))
+	c09BlockingInsideTransactions(r)
 	c09Isolation(r, tierPick(r, 6, 40), false)
 	c09Introspection(r, tierPick(r, 8, 60))
 	c09IsolationAcrossDatabases(r, tierPick(r, 6, 40))
@@ -586,4 +587,62 @@ func c09IsolationAcrossDatabases(r *verdict.Run, runs int) {
 		}
 		r.Distinct(fmt.Sprintf("isolation-across-databases/run%d/broken=%v", run%4, broken.Load() > 0))
 	})
+}
+
+// c09BlockingInsideTransactions: EXEC runs its queue as one unit, so a queued blocking command can never wait - also
+// when the transaction has moved to another database by a queued SELECT before it. Directed programs, compared with
+// the reference model step by step (a wait shows as a missing EXEC reply).
+func c09BlockingInsideTransactions(r *verdict.Run) {
+	c, err := startChild(false)
+	if err != nil {
+		r.Inconclusive("cannot start child")
+		return
+	}
+	defer func() { c.Stop() }()
+	preludes := [][][]string{nil, {{"SELECT", "1"}}, {{"SELECT", "1"}, {"SELECT", "0"}}, {{"SELECT", "9"}}, {{"SELECT", "0"}}, {{"SELECT", "1"}, {"RPUSH", "l", "in-db-1"}}, {{"SELECT", "16"}}, {{"SELECT", "2"}, {"DEL", "l"}}}
+	for fi, f := range blkForms {
+		d, err := newDiffEnv(r, c, c09Keys)
+		if err != nil {
+			r.Inconclusive("infra: " + err.Error())
+			return
+		}
+		d.monitor = "txn"
+		if _, err := d.addConn(); err != nil {
+			d.close()
+			continue
+		}
+		d.cn.Timeout = 6 * time.Second
+		for pi, prelude := range preludes {
+			to := []string{"0", "30"}[(pi+fi)%2]
+			prog := [][]string{{"DEL", "l", "dst", "n"}, {"MULTI"}}
+			prog = append(prog, prelude...)
+			prog = append(prog, f.args([]string{"l"}, to), []string{"INCR", "n"}, []string{"RPUSH", "l", "e1", "e2"}, f.args([]string{"l"}, to), []string{"INCR", "n"}, []string{"EXEC"}, []string{"GET", "n"}, []string{"SELECT", "0"}, []string{"LRANGE", "l", "0", "-1"})
+			okAll := true
+			for _, args := range prog {
+				if _, ok := d.stepOn(0, args); !ok {
+					okAll = false
+					break
+				}
+				r.Eval(1)
+			}
+			if !okAll || d.lastDiverged {
+				d.close()
+				if !c.Alive() {
+					c.Stop()
+					if c, err = startChild(false); err != nil {
+						return
+					}
+				}
+				if d, err = newDiffEnv(r, c, c09Keys); err != nil {
+					return
+				}
+				d.monitor = "txn"
+				d.addConn()
+				d.cn.Timeout = 6 * time.Second
+				continue
+			}
+			r.Distinct(fmt.Sprintf("blocking-in-exec/%s/prelude-%d/timeout-%s", f.name, pi, to))
+		}
+		d.close()
+	}
 }
